@@ -222,7 +222,7 @@ impl ChildCfg {
 }
 
 fn cases_for(ty: &Ty, seed: u64, idx: usize, thorough: bool) -> Vec<Val> {
-    let (cap, nrand) = if thorough { (120, 400) } else { (28, 20) };
+    let (cap, nrand) = if thorough { (160, 1500) } else { (28, 20) };
     // corpus first: `<type name>\t<value>` lines of corpus/C11/values.txt and of C11_EXTRA_VALUE
     let mut v: Vec<Val> = Vec::new();
     let mut lines: Vec<String> = Vec::new();
@@ -911,10 +911,6 @@ fn main() {
         return;
     }
 
-    if argv.get(1).map(|s| s.as_str()) == Some("probe") {
-        probe();
-        return;
-    }
     let args = Args::parse();
     if let Some(path) = &args.replay {
         replay(path);
@@ -1075,49 +1071,3 @@ fn replay(path: &str) {
     }
 }
 
-/// Development aid: prints the error of a refused request.
-fn probe() {
-    let vm = new_vm(false);
-    let ty = <Option<Option<i64>> as M>::ty();
-    if std::env::var("PROBE_PROGS").is_ok() {
-        let progs = Progs {
-            id: ty.program(&ty.gty(true), "x"),
-            rb: ty.program(&ty.gty(true), &ty.rebuild_body()),
-            wrap: ty.program(&format!("Option {}", ty.gty(true)), "mk_some x"),
-        };
-        let st = mk_state::<Option<Option<i64>>>(&progs, false);
-        std::mem::forget(st);
-        let which = std::env::var("PROBE_PROGS").unwrap();
-        if which.contains("i") { vm.run_expr::<OwnedFunction<fn(Option<Option<i64>>) -> Option<Option<i64>>>>("c11id", &progs.id).unwrap(); }
-        if which.contains("r") { vm.run_expr::<OwnedFunction<fn(Option<Option<i64>>) -> Option<Option<i64>>>>("c11rb", &progs.rb).unwrap(); }
-        if which.contains("w") { vm.run_expr::<OwnedFunction<fn(Option<Option<i64>>) -> Option<Option<Option<i64>>>>>("c11wrap", &progs.wrap).unwrap(); }
-        if which.contains("l") { vm.load_script("c11f", &progs.id).unwrap(); }
-    }
-    let x: Option<Option<i64>> = if std::env::var("PROBE_NONE").is_ok() { None } else { Some(None) };
-    gluon::import::add_extern_module(&vm, "c11probe", move |thread| ExternModule::new(thread, x.clone()));
-    vm.run_expr::<OpaqueValue<RootedThread, Hole>>("c11imp", "import! c11probe").unwrap();
-    if std::env::var("PROBE_LOAD_AFTER").is_ok() {
-        vm.load_script("c11after", "1").unwrap();
-    }
-    if std::env::var("PROBE_LOAD_ID_AFTER").is_ok() {
-        vm.load_script("c11f17", &ty.program(&ty.gty(true), "x")).unwrap();
-    }
-    if std::env::var("PROBE_PRE").is_ok() {
-        println!("pre i64: {:?}", vm.get_global::<i64>("c11probe").is_ok());
-        println!("pre Option<i64>: {:?}", vm.get_global::<Option<i64>>("c11probe").is_ok());
-        println!("pre Option<String>: {:?}", vm.get_global::<Option<String>>("c11probe").is_ok());
-    }
-    match vm.get_global::<Option<Option<i64>>>("c11probe") {
-        Ok(v) => println!("ok {:?}", v),
-        Err(e) => println!("err {}", e),
-    }
-    println!("global type: {}", vm.get_global_type("c11probe").unwrap());
-    println!("make_type:   {}", <Option<Option<i64>> as VmType>::make_type(&vm));
-    println!("make_forall: {}", <Option<Option<i64>> as VmType>::make_forall_type(&vm));
-    vm.load_script("c11probe2", "let { Option } = import! std.types\nlet x : Option (Option Int) = Some None\nx").unwrap();
-    match vm.get_global::<Option<Option<i64>>>("c11probe2") {
-        Ok(v) => println!("ok {:?}", v),
-        Err(e) => println!("err {}", e),
-    }
-    println!("global type: {}", vm.get_global_type("c11probe2").unwrap());
-}
